@@ -29,8 +29,11 @@ package cluster
 // then consults its fallback - another member of the cluster); it still has to
 // be a member of the current set (a). A context WITHOUT match criteria is
 // enumerated and judged on (a) only. Criteria are handed over in the api
-// contract's order (sorted by name). HostNum / IsExistsHosts and the
-// equivalence of the two builders are C15's, not asked here.
+// contract's order (sorted by name). The values of HostNum / IsExistsHosts and
+// the equivalence of the two builders are C15's, not asked here; that the counts
+// and the cluster manager's lookups (ConnPoolForCluster sizes its attempts with
+// HostNum) agree with the chooser is unit consumers'
+// (zz_verif_C05_subsetapi_test.go).
 //
 // Randomness: every *rand.Rand of every inner balancer (and of the round-robin
 // factory that draws initial cursors) is replaced by one scripted source.
@@ -129,6 +132,12 @@ func (s *c05sSrc) Seed(int64) {}
 const c05sCounterMask = 0b00101 // hosts 0 and 2 carry one active request / connection
 
 func c05sNewCluster(name string, policy types.LoadBalancerType, cfg *c15ref.Config) types.Cluster {
+	return NewCluster(c05sClusterConfig(name, policy, cfg))
+}
+
+// c05sClusterConfig: the cluster configuration of a reference configuration (no
+// selectors: a cluster without subset balancing).
+func c05sClusterConfig(name string, policy types.LoadBalancerType, cfg *c15ref.Config) v2.Cluster {
 	cc := v2.Cluster{Name: name, ClusterType: v2.SIMPLE_CLUSTER, LbType: v2.LbType(policy)}
 	cc.LBSubSetConfig = v2.LBSubsetConfig{FallBackPolicy: uint8(cfg.Policy)}
 	for _, s := range cfg.Selectors {
@@ -140,7 +149,7 @@ func c05sNewCluster(name string, policy types.LoadBalancerType, cfg *c15ref.Conf
 			cc.LBSubSetConfig.DefaultSubset[kv.K] = kv.V
 		}
 	}
-	return NewCluster(cc)
+	return cc
 }
 
 func c05sMakeHosts(info types.ClusterInfo, addrs []string, metas [][]c15ref.Pair, weights []uint32) []types.Host {
@@ -368,7 +377,16 @@ var c05sOutNames = [c05sOutN]string{"healthy eligible member", "nil: no healthy 
 	"member (no criteria: membership only)", "nil", "foreign", "outside E", "unhealthy", "panic"}
 
 func c05sKey(builder, policy, wclass, class, kind string) string {
-	return fmt.Sprintf("subset(%s builder) lb=%s %s-weights | %s: %s", builder, policy, wclass, class, kind)
+	return fmt.Sprintf("%s lb=%s %s-weights | %s: %s", c05sLayer(builder), policy, wclass, class, kind)
+}
+
+// c05sLayer names the balancer layer of a finding key; builder "" = a cluster
+// without subset selectors (part subset-consumers only).
+func c05sLayer(builder string) string {
+	if builder == "" {
+		return "plain balancer (no subset selectors)"
+	}
+	return fmt.Sprintf("subset(%s builder)", builder)
 }
 
 func c05sPop(m uint32) int {
@@ -427,6 +445,9 @@ type c05sEnv struct {
 	notFull  int64 // filter builder: the full balancer does not select from the published set object (sanity of the build-mode switch)
 	preShare int64
 	mmcs     map[string]api.MetadataMatchCriteria
+	// variant runs one alternative of a configuration; nil: checkVariant (the
+	// ChooseHost oracle of this file). Part subset-consumers plugs in its own.
+	variant func(p *vreport.Part, c *c05sCase, v c05sVariant, collect func(c05sViol))
 }
 
 func c05sNewEnv(part string) *c05sEnv {
@@ -521,8 +542,12 @@ func (e *c05sEnv) check(p *vreport.Part, c c05sCase) {
 		}
 		groups[g] = append(groups[g], x)
 	}
+	runVariant := e.checkVariant
+	if e.variant != nil {
+		runVariant = e.variant
+	}
 	for _, v := range c.Variants {
-		e.checkVariant(p, &c, v, collect)
+		runVariant(p, &c, v, collect)
 	}
 	for _, g := range order {
 		vs := groups[g]
@@ -540,7 +565,7 @@ func (e *c05sEnv) check(p *vreport.Part, c c05sCase) {
 		if len(ran) >= 2 && len(failed) == len(ran) {
 			cc := c
 			cc.Variants = sub
-			p.Violation(fmt.Sprintf("subset(%s builder) every inner policy | %s: %s", g.builder, g.class, g.kind),
+			p.Violation(fmt.Sprintf("%s every %s | %s: %s", c05sLayer(g.builder), map[bool]string{true: "policy", false: "inner policy"}[g.builder == ""], g.class, g.kind),
 				fmt.Sprintf("the same under each of the %d inner policies run for this configuration; first: %s", len(ran), vs[0].detail), cc)
 			continue
 		}
@@ -1724,4 +1749,18 @@ func TestVerifC05Subset(t *testing.T) {
 	c05sRunSmall(c05sBreadthBound(), min(5, 40))
 	c05sRunSmall(c05sDepthBound(), min(4, 30))
 	c05sRunHistories(min(4, 30))
+}
+
+// TestVerifC05SubsetConsumers is unit "consumers": the counting side and the
+// cluster manager's lookups (zz_verif_C05_subsetapi_test.go).
+func TestVerifC05SubsetConsumers(t *testing.T) {
+	c05Quiet()
+	if !vreport.Replaying() {
+		if msg := c05sSelfCheck(); msg != "" {
+			vreport.HarnessError("C05", "subset-consumers-self-check", msg)
+			t.Error(msg)
+			return
+		}
+	}
+	c05aRunConsumers(time.Duration(vreport.Pick(4, 30)) * time.Minute)
 }
